@@ -96,11 +96,11 @@ Lemma events_ne T f : events T f <> [].
 Proof. unfold events. discriminate. Qed.
 
 (* ---- the executable statement implies the readable one ---- *)
-Lemma allowed_sound T f order r : allowed T f order r = true -> Allowed T f order r.
+Lemma allowed_sound early T f order r : allowed early T f order r = true -> Allowed early T f order r.
 Proof.
   unfold allowed, Allowed. destruct (f_shape f) as [how o|t o|].
   - apply result_eqb_spec.
-  - destruct (f_stop_now f); [apply result_eqb_spec|].
+  - destruct (f_stop_now f || early); [apply result_eqb_spec|].
     rewrite !andb_true_iff. intros [[H1 H2] H3]. cbv zeta. repeat split.
     + intro E. rewrite E in H1. discriminate.
     + intros k Hk. rewrite forallb_forall in H2. specialize (H2 k Hk).
@@ -108,7 +108,7 @@ Proof.
       destruct (earliest_spec (events T f) (events_ne T f)) as [Ha Hb].
       exists (earliest (events T f)). repeat split; assumption.
     + apply result_eqb_spec. exact H3.
-  - destruct (f_stop_now f); [apply result_eqb_spec|].
+  - destruct (f_stop_now f || early); [apply result_eqb_spec|].
     rewrite !andb_true_iff. intros [[H1 H2] H3]. cbv zeta. repeat split.
     + intro E. rewrite E in H1. discriminate.
     + intros k Hk. rewrite forallb_forall in H2. specialize (H2 k Hk).
